@@ -512,7 +512,7 @@ fn run(args: &[String]) {
         eprintln!("phase canonical done at {:.1}s", t0.elapsed().as_secs_f64());
     }
     // 2. exploration
-    let per_pair = if thorough { 400 } else { 36 };
+    let per_pair = if thorough { 300 } else { 28 };
     let mut st = seed ^ 0xC17;
     let mut jobs: Vec<RunCfg> = vec![];
     for (ci, c) in cs.iter().enumerate() {
